@@ -6,6 +6,7 @@
 (define-fun numStr ((f F64)) Str
   (ite (fp.isNaN f) "NaN" (ite (fp.isInfinite f) (ite (fp.isNegative f) "-Infinity" "Infinity") (ite (fp.isZero f) "0" (fmtf f)))))
 ;; first node of a node-set in document order
+;; heapfn: firstDoc firstIdx
 (declare-fun firstDoc (AH_Cursor Slice) Cursor)
 (declare-fun firstIdx (AH_Cursor Slice) Int)
 (assert (forall ((h AH_Cursor) (s Slice)) (! (=> (> (slen_ s) 0)
@@ -29,3 +30,7 @@
   (ite ((_ is VNum) v) (and (not (fp.isNaN (vnum v))) (not (fp.isZero (vnum v))))
   (ite ((_ is VStr) v) (> (slen (vstr v)) 0)
   (ite ((_ is VSet) v) (> (slen_ (vset v)) 0) false)))))
+;; argument vectors of builtin/user functions hold evaluated results (heap A_Val!0 at entry): never a nil Result
+(define-sort AH_Val () (Array Int (Array Int Val)))
+(define-fun okargs ((h AH_Val) (s Slice)) Bool
+  (forall ((k Int)) (! (=> (and (<= 0 k) (< k (slen_ s))) (not (= (at_Val h s k) VNil))) :pattern ((at_Val h s k)))))
